@@ -173,7 +173,10 @@ ExactCharge ==
         \* only successful auto-renewals charge: exactly one month of the plan renewed onto, to the recorded creator
         \A b \in Buyers : st.bal[b] = prev.bal[b] - RenewCharge(b)
 MonthResets ==
-  \A c \in Consumers : (Fired(prev, st, c) /\ ~st.panic /\ st.cs[c].subn.on) => st.cs[c].subn.cuL = st.cs[c].subn.cuT
+  /\ \A c \in Consumers : (Fired(prev, st, c) /\ ~st.panic /\ st.cs[c].subn.on) => st.cs[c].subn.cuL = st.cs[c].subn.cuT
+  \* an upgrade starts a new month on the new plan: full allowance of the new plan
+  /\ (st.ev = "buy" /\ st.ok /\ prev.cs[st.c].subn.on /\ prev.cs[st.c].subn.pi # st.p) =>
+        (st.cs[st.c].subn.cuL = st.cs[st.c].subn.cuT /\ st.cs[st.c].subn.cuT = PlanCu(st.p))
 
 -----------------------------------------------------------------------------
 \* ---- C11: the cu-tracker timer consumed between two logged lines (the driver cuts advances so that there is
